@@ -3457,8 +3457,13 @@ class PyCdlib:
                 else:
                     fmode = 0o0100444
 
-        if length > (2**32) - 1 and self.interchange_level < 3:
-            raise pycdlibexception.PyCdlibInvalidInput('File sizes for interchange level < 3 must be less than 4GiB')
+        # A file of more than 0xfffff800 bytes is split over several directory
+        # records below (a multi-extent file), which Ecma-119 section 10 only
+        # allows at interchange level 3.
+        if length > 0xfffff800 and self.interchange_level < 3:
+            if length > (2**32) - 1:
+                raise pycdlibexception.PyCdlibInvalidInput('File sizes for interchange level < 3 must be less than 4GiB')
+            raise pycdlibexception.PyCdlibInvalidInput('File sizes for interchange level < 3 cannot exceed 0xfffff800 bytes, the most that fits into a single extent')
 
         # The entries are added one namespace after the other.  Resolve the
         # Joliet and UDF destinations up front, so that a name or a parent that
